@@ -838,6 +838,14 @@ class Interp(object):
             return ord(v.c)
         if isinstance(v, bool):
             return int(v)
+        if isinstance(v, tuple):
+            return tuple(self.ordkey(x) for x in v)
+        if isinstance(v, list):
+            return [self.ordkey(x) for x in v]
+        if isinstance(v, Opt):
+            return (1, self.ordkey(v.v)) if v.some else (0,)
+        if isinstance(v, EV) and v.ty == 'Ordering':
+            return {'Less': -1, 'Equal': 0, 'Greater': 1}[v.var]
         raise Unanalysable('ordering on %s' % type(v).__name__)
 
     def arith(self, op, l, r, e):
@@ -2390,8 +2398,17 @@ class Interp(object):
             return t
         if name == 'eq':
             return self.values_equal(t, a[0])
+        if name == 'ne':
+            return not self.values_equal(t, a[0])
         if name == 'into':
             return t
+        if name in ('cmp', 'partial_cmp'):
+            x, y = self.ordkey(t), self.ordkey(a[0])
+            r = EV('Ordering', 'Less' if x < y else ('Greater' if x > y else 'Equal'))
+            return r if name == 'cmp' else Opt(r)
+        if name in ('lt', 'le', 'gt', 'ge'):
+            x, y = self.ordkey(t), self.ordkey(a[0])
+            return {'lt': x < y, 'le': x <= y, 'gt': x > y, 'ge': x >= y}[name]
         raise Unanalysable('tuple method %s' % name)
 
     def m_Formatter(self, f, name, a, hint, tf, ln):
